@@ -31,6 +31,7 @@ import (
 
 	"github.com/bytom/bytom/protocol/validation"
 	"github.com/bytom/bytom/protocol/vm"
+	"verifharness/fraglib"
 	. "verifharness/hlib"
 	"verifharness/vmlib"
 )
@@ -841,5 +842,9 @@ func run(c *Ctx) error {
 	c.Stats.Distribution["model_evaluated"] = c.Cases.Len()
 	c.Stats.Rule = "programs assembled from the opcode vocabulary: straight-line blocks (stack-aware choice of ~75 opcodes incl. splice, hash, context, alt-stack, PICK/ROLL, expansion NOPs), counted loops (n .. 1SUB DUP JUMPIF), unbounded push/drop refund loops ending in a back JUMP, forward JUMPIF, back edges to arbitrary earlier instructions, jumps into the middle of instructions / beyond the end / to 2^32-1, CHECKPREDICATE with generated children nested up to depth 4 (child limit 0 / 1-40 / 40-440 / 1000-51000; children ending in a deferred push with tiny limits), CHECKMULTISIG with zero keys and with a real ed25519 key; the regression family '0 <PROGRAM..> lim CHECKPREDICATE DROP JUMP 0 + padding'; malformed stream (random bytes, bit flips, truncation, dangling push opcodes); gas limits 0..100000 (10% <= 20, 25% <= 400, 45% <= 5000, 16% <= 20000, 4% above); tx version 1 / 2 / absent; distinct = distinct (program, args, state, gas, expansion flag); non-trivial = at least 3 executed top-level instructions"
 	c.Cases.Shard = 60
-	return c.Cases.Write(c.Out, vmlib.Header+"From C07 Require Import Model Run.\n", "c07obs", "c07obs_eqb")
+	if err := c.Cases.Write(c.Out, vmlib.Header+"From C07 Require Import Model Run.\n", "c07obs", "c07obs_eqb"); err != nil {
+		return err
+	}
+	// translator cross-check: the generated GasState.updateUsage (C07/Tie.v) against the compiled one
+	return fraglib.GasState(c, "updateUsage")
 }
